@@ -5,6 +5,7 @@ package main
 //   compose/graph_run.go   (*runner).handleInterrupt                              -> plain_assembly
 //                          (*runner).handleInterruptWithSubGraphAndRerunNodes     -> rerun_assembly
 //                          the tail of both (conversion, where the checkpoint goes) -> interrupt_dest, assembly_tail
+//                          (*runner).resolveInterruptCompletedTasks, one task       -> resolve_task
 //                          (*runner).run: every call of the two handlers, arguments by origin -> call_sites
 //
 // The handlers are executed symbolically, statement by statement (go/ast, no type checker): a []*task variable is a
@@ -46,12 +47,13 @@ func init() {
 		"   definitions are re-exported. *)\n"+
 		"From Eino Require Import Base.Util Model.RunLoop Model.CheckpointAsmLib.\n\n"+
 		"Definition tie_available : bool := false.\n\n"+
-		"Definition plain_assembly (V CS GS SCP SINFO : Type) (own_state : option GS) (hb ha : list N) (next : list (atask V)) (cs : CS)\n"+
+		"Definition plain_assembly (V CS GS SCP SINFO : Type) (val_is_nil : V -> bool) (own_state : option GS) (hb ha : list N) (next : list (atask V)) (cs : CS)\n"+
 		"    : ares V CS GS SCP SINFO := model_plain own_state hb ha next cs.\n"+
-		"Definition rerun_assembly (V CS GS SCP SINFO : Type) (fold : CS -> list (N * V) -> res CS) (ph : bool -> V) (isStream : bool)\n"+
+		"Definition rerun_assembly (V CS GS SCP SINFO : Type) (val_is_nil : V -> bool) (fold : CS -> list (N * V) -> res CS) (ph : bool -> V) (isStream : bool)\n"+
 		"    (own_state : option GS) (rr : list N) (subs : list (N * (SCP * SINFO))) (ha : list N) (completed : list (atask V))\n"+
 		"    (hb : list N) (pending : list (atask V)) (cs : CS) : ares V CS GS SCP SINFO :=\n"+
 		"  model_rerun fold ph isStream own_state rr subs ha completed hb pending cs.\n"+
+		"Definition resolve_task (V SCP SINFO : Type) (after_cfg : list N) (t : N * @texec V SCP SINFO) : rstep SCP SINFO := model_resolve_task after_cfg t.\n"+
 		"Definition interrupt_dest (isSubGraph hasID : bool) : adest := model_dest isSubGraph hasID.\n"+
 		"Definition assembly_tail : list string := model_tail.\n"+
 		"Definition call_sites : list (string * list string) := model_call_sites.\n")
@@ -85,7 +87,7 @@ type c05aHandler struct {
 	foldStage            int
 }
 
-var c05aReserved = map[string]bool{"fold": true, "ph": true, "isStream": true, "own_state": true, "t": true, "r": true,
+var c05aReserved = map[string]bool{"fold": true, "ph": true, "val_is_nil": true, "isStream": true, "own_state": true, "t": true, "r": true,
 	"map": true, "filter": true, "flat_map": true, "puts": true, "set_puts": true, "fst": true, "snd": true, "V": true,
 	"CS": true, "GS": true, "SCP": true, "SINFO": true, "N": true, "list": true, "option": true, "res": true, "Some": true,
 	"None": true, "Ok": true, "match": true, "with": true, "end": true, "let": true, "in": true, "fun": true, "if": true,
@@ -168,6 +170,33 @@ func (l *c05aLoop) cond(e ast.Expr) (string, error) {
 			return c05aNotB(s), nil
 		}
 	case *ast.BinaryExpr:
+		// t.input != nil / t.output == nil
+		if (x.Op == token.EQL || x.Op == token.NEQ) && c05IsNil(x.Y) {
+			if tv, f, ok := c05Sel(x.X); ok && tv == l.tv && (f == "input" || f == "output") {
+				s := "val_is_nil (tk_in t)"
+				if f == "output" {
+					s = "val_is_nil (tk_out t)"
+				}
+				if x.Op == token.NEQ {
+					s = "negb (" + s + ")"
+				}
+				return s, nil
+			}
+		}
+		if x.Op == token.LAND || x.Op == token.LOR {
+			a, err := l.cond(x.X)
+			if err != nil {
+				return "", err
+			}
+			b, err := l.cond(x.Y)
+			if err != nil {
+				return "", err
+			}
+			if x.Op == token.LAND {
+				return "(" + a + ") && (" + b + ")", nil
+			}
+			return "(" + a + ") || (" + b + ")", nil
+		}
 		if x.Op == token.EQL {
 			if id, ok := x.Y.(*ast.Ident); ok && id.Name == "false" {
 				s, err := l.cond(x.X)
@@ -900,7 +929,7 @@ func (h *c05aHandler) emit(name string, withFold bool) (string, error) {
 		return "", h.err("fold of the other completed tasks: expected %v", withFold)
 	}
 	var b strings.Builder
-	head := "Definition " + name + " (V CS GS SCP SINFO : Type) "
+	head := "Definition " + name + " (V CS GS SCP SINFO : Type) (val_is_nil : V -> bool) "
 	if withFold {
 		head += "(fold : CS -> list (N * V) -> res CS) (ph : bool -> V) (isStream : bool)\n    "
 	}
@@ -1219,6 +1248,409 @@ func c05aCallSites(f *ast.File) (string, error) {
 	return "[" + strings.Join(c.out, ";\n   ") + "]", nil
 }
 
+
+// ---------------------------------------------------------------- resolveInterruptCompletedTasks
+
+type c05aResolve struct {
+	where   string
+	recv    string
+	tasks   string            // the []*task parameter
+	idx     string            // index variable of `for i := 0; i < len(tasks); i++` / `for i := range tasks`
+	tv      string            // value variable of `for _, t := range tasks`
+	effOf   map[string]string // parameter -> effect constructor (by position)
+	submap  string
+	bound   map[string]string // Go local -> Gallina name (info)
+	search  string            // loop variable of the search loop in scope
+	subVars map[string]bool   // locals holding isSubGraphInterrupt(t.err)
+	file    *ast.File
+}
+
+// c05aMemberHelper: the private method `name` of runner is `func (r *runner) name(k string) bool` searching r.<field> for k
+// (for _, x := range r.field { if x == k { return true } } return false — also with an index loop)
+func c05aMemberHelper(f *ast.File, name, field string) bool {
+	fn := c05MethodOf(f, "runner", name)
+	if fn == nil || fn.Body == nil || len(fn.Body.List) != 2 {
+		return false
+	}
+	recv := c05Recv(fn)
+	pn := c05ParamNames(fn)
+	if recv == "" || len(pn) != 1 {
+		return false
+	}
+	if ret, ok := fn.Body.List[1].(*ast.ReturnStmt); !ok || len(ret.Results) != 1 || c05Ident(ret.Results[0]) != "false" {
+		return false
+	}
+	rs, ok := fn.Body.List[0].(*ast.RangeStmt)
+	if !ok || c05Squash(c05aSrc(rs.X)) != recv+"."+field || len(rs.Body.List) != 1 {
+		return false
+	}
+	elem := ""
+	if rs.Value != nil {
+		elem = c05Ident(rs.Value)
+	} else if rs.Key != nil {
+		elem = recv + "." + field + "[" + c05Ident(rs.Key) + "]"
+	}
+	is, ok := rs.Body.List[0].(*ast.IfStmt)
+	if !ok || is.Init != nil || is.Else != nil || len(is.Body.List) != 1 || elem == "" {
+		return false
+	}
+	if ret, ok := is.Body.List[0].(*ast.ReturnStmt); !ok || len(ret.Results) != 1 || c05Ident(ret.Results[0]) != "true" {
+		return false
+	}
+	be, ok := is.Cond.(*ast.BinaryExpr)
+	if !ok || be.Op != token.EQL {
+		return false
+	}
+	a, b := c05Squash(c05aSrc(be.X)), c05Squash(c05aSrc(be.Y))
+	return a == elem && b == pn[0] || b == elem && a == pn[0]
+}
+
+// c05aSwitchToIf: a tagless switch without fallthrough is an if / else-if chain
+func c05aSwitchToIf(sw *ast.SwitchStmt) (ast.Stmt, bool) {
+	if sw.Tag != nil || sw.Init != nil {
+		return nil, false
+	}
+	var dflt []ast.Stmt
+	hasDflt := false
+	var clauses []*ast.CaseClause
+	for _, s := range sw.Body.List {
+		cc, ok := s.(*ast.CaseClause)
+		if !ok {
+			return nil, false
+		}
+		bad := false
+		for _, b := range cc.Body {
+			ast.Inspect(b, func(n ast.Node) bool {
+				switch x := n.(type) {
+				case *ast.BranchStmt:
+					if x.Tok == token.FALLTHROUGH || x.Tok == token.BREAK {
+						bad = true
+					}
+				case *ast.ForStmt, *ast.RangeStmt, *ast.SwitchStmt, *ast.SelectStmt:
+					return false
+				}
+				return true
+			})
+		}
+		if bad {
+			return nil, false
+		}
+		if cc.List == nil {
+			if hasDflt {
+				return nil, false
+			}
+			hasDflt, dflt = true, cc.Body
+			continue
+		}
+		if len(cc.List) != 1 {
+			return nil, false
+		}
+		clauses = append(clauses, cc)
+	}
+	if len(clauses) == 0 {
+		return nil, false
+	}
+	var tail ast.Stmt
+	if hasDflt {
+		tail = &ast.BlockStmt{List: dflt}
+	}
+	for i := len(clauses) - 1; i >= 0; i-- {
+		tail = &ast.IfStmt{Cond: clauses[i].List[0], Body: &ast.BlockStmt{List: clauses[i].Body}, Else: tail}
+	}
+	return tail, true
+}
+
+func (c *c05aResolve) err(format string, a ...any) error { return c05Err(c.where, format, a...) }
+
+// isTask: e denotes the current task
+func (c *c05aResolve) isTask(e ast.Expr) bool {
+	if id := c05Ident(e); id != "" {
+		return id == c.tv && c.tv != ""
+	}
+	ix, ok := e.(*ast.IndexExpr)
+	return ok && c.idx != "" && c05Ident(ix.X) == c.tasks && c05Ident(ix.Index) == c.idx
+}
+
+func (c *c05aResolve) taskField(e ast.Expr, f string) bool {
+	se, ok := e.(*ast.SelectorExpr)
+	return ok && se.Sel.Name == f && c.isTask(se.X)
+}
+
+// keyExpr: the task's node key, or the search variable (equal to it where it is in scope)
+func (c *c05aResolve) isKeyExpr(e ast.Expr) bool {
+	return c.taskField(e, "nodeKey") || (c.search != "" && c05Ident(e) == c.search)
+}
+
+func (c *c05aResolve) cond(e ast.Expr) (string, error) {
+	switch x := e.(type) {
+	case *ast.ParenExpr:
+		return c.cond(x.X)
+	case *ast.UnaryExpr:
+		if x.Op == token.NOT {
+			s, err := c.cond(x.X)
+			return "negb (" + s + ")", err
+		}
+	case *ast.BinaryExpr:
+		if (x.Op == token.NEQ || x.Op == token.EQL) && c05IsNil(x.Y) && c.taskField(x.X, "err") {
+			if x.Op == token.NEQ {
+				return "t_has_err x", nil
+			}
+			return "negb (t_has_err x)", nil
+		}
+	case *ast.CallExpr:
+		if c05Squash(c05aSrc(x.Fun)) == "errors.Is" && len(x.Args) == 2 && c.taskField(x.Args[0], "err") && c05Ident(x.Args[1]) == "InterruptAndRerun" {
+			return "t_is_rerun x", nil
+		}
+		// r.isInterruptAfterNode(t.nodeKey): a private membership test over r.interruptAfterNodes
+		if rx, m, ok := c05Sel(x.Fun); ok && rx == c.recv && len(x.Args) == 1 && c.isKeyExpr(x.Args[0]) && c.file != nil &&
+			c05aMemberHelper(c.file, m, "interruptAfterNodes") {
+			return "asm_mem k after_cfg", nil
+		}
+	}
+	return "", c.err("condition %s", c05aSrc(e))
+}
+
+func c05aEffList(effs []string) string { return "[" + strings.Join(effs, "; ") + "]" }
+
+// exec: the statements of one iteration, as a decision tree over the task's result
+func (c *c05aResolve) exec(stmts []ast.Stmt, effs []string, ind string) (string, error) {
+	if len(stmts) == 0 {
+		return "RStep " + c05aEffList(effs), nil
+	}
+	rest := stmts[1:]
+	switch x := stmts[0].(type) {
+	case *ast.EmptyStmt:
+		old := c.search
+		c.search = ""
+		r, err := c.exec(rest, effs, ind)
+		c.search = old
+		return r, err
+	case *ast.BranchStmt:
+		if x.Tok == token.CONTINUE && x.Label == nil {
+			return "RStep " + c05aEffList(effs), nil
+		}
+		return "", c.err("%s", x.Tok)
+	case *ast.ReturnStmt:
+		// return wrapGraphNodeError(t.nodeKey, t.err)
+		if len(x.Results) == 1 {
+			if call, ok := x.Results[0].(*ast.CallExpr); ok {
+				for _, a := range call.Args {
+					if c.taskField(a, "err") {
+						return "RStop (t_err_code x)", nil
+					}
+				}
+			}
+			if c.taskField(x.Results[0], "err") {
+				return "RStop (t_err_code x)", nil
+			}
+		}
+		return "", c.err("return %s inside the loop", c05aSrc(x.Results[0]))
+	case *ast.SwitchStmt:
+		is, ok := c05aSwitchToIf(x)
+		if !ok {
+			return "", c.err("switch statement")
+		}
+		return c.exec(append([]ast.Stmt{is}, rest...), effs, ind)
+	case *ast.BlockStmt:
+		return c.exec(append(append([]ast.Stmt{}, x.List...), rest...), effs, ind)
+	case *ast.AssignStmt:
+		// sub := isSubGraphInterrupt(t.err)
+		if x.Tok == token.DEFINE && len(x.Lhs) == 1 && len(x.Rhs) == 1 {
+			if call, ok := x.Rhs[0].(*ast.CallExpr); ok && c05Ident(call.Fun) == "isSubGraphInterrupt" && len(call.Args) == 1 &&
+				c.taskField(call.Args[0], "err") && c05Ident(x.Lhs[0]) != "" {
+				c.subVars[c05Ident(x.Lhs[0])] = true
+				return c.exec(rest, effs, ind)
+			}
+		}
+		if len(x.Lhs) != 1 || len(x.Rhs) != 1 || x.Tok != token.ASSIGN {
+			return "", c.err("assignment %s", c05aSrc(x.Lhs[0]))
+		}
+		// m[t.nodeKey] = info
+		if ix, ok := x.Lhs[0].(*ast.IndexExpr); ok && c05Ident(ix.X) == c.submap && c.isKeyExpr(ix.Index) {
+			g, ok := c.bound[c05Ident(x.Rhs[0])]
+			if !ok {
+				return "", c.err("value stored under the task's key: %s", c05aSrc(x.Rhs[0]))
+			}
+			return c.exec(rest, append(append([]string{}, effs...), c.effOf[c.submap]+" k "+g), ind)
+		}
+		// *p = append(*p, t.nodeKey)
+		if st, ok := x.Lhs[0].(*ast.StarExpr); ok {
+			p := c05Ident(st.X)
+			call, ok := x.Rhs[0].(*ast.CallExpr)
+			if ok && c.effOf[p] != "" && p != c.submap && c05Ident(call.Fun) == "append" && len(call.Args) == 2 && c05Squash(c05aSrc(call.Args[0])) == "*"+p &&
+				c.isKeyExpr(call.Args[1]) {
+				return c.exec(rest, append(append([]string{}, effs...), c.effOf[p]+" k"), ind)
+			}
+		}
+		return "", c.err("assignment %s", c05aSrc(x.Lhs[0]))
+	case *ast.RangeStmt:
+		// for _, key := range r.interruptAfterNodes { if key == t.nodeKey { ...; break } }
+		if c05Squash(c05aSrc(x.X)) != c.recv+".interruptAfterNodes" || c05Ident(x.Value) == "" || (x.Key != nil && c05Ident(x.Key) != "_") || len(x.Body.List) != 1 || c.search != "" {
+			return "", c.err("inner loop over %s", c05aSrc(x.X))
+		}
+		is, ok := x.Body.List[0].(*ast.IfStmt)
+		if !ok || is.Init != nil || is.Else != nil || len(is.Body.List) == 0 {
+			return "", c.err("inner loop is not a search")
+		}
+		kv := c05Ident(x.Value)
+		be, ok := is.Cond.(*ast.BinaryExpr)
+		if !ok || be.Op != token.EQL || !(c05Ident(be.X) == kv && c.taskField(be.Y, "nodeKey") || c05Ident(be.Y) == kv && c.taskField(be.X, "nodeKey")) {
+			return "", c.err("inner loop is not a search for the task's key")
+		}
+		last, ok := is.Body.List[len(is.Body.List)-1].(*ast.BranchStmt)
+		if !ok || last.Tok != token.BREAK {
+			return "", c.err("inner loop does not break at the first hit")
+		}
+		c.search = kv
+		// the empty statement marks the end of the scope of the search variable
+		th, err := c.exec(append(append(append([]ast.Stmt{}, is.Body.List[:len(is.Body.List)-1]...), &ast.EmptyStmt{}), rest...), effs, ind+"  ")
+		c.search = ""
+		if err != nil {
+			return "", err
+		}
+		el, err := c.exec(rest, effs, ind+"  ")
+		if err != nil {
+			return "", err
+		}
+		return fmt.Sprintf("if asm_mem k after_cfg then %s\n%selse %s", th, ind, el), nil
+	case *ast.IfStmt:
+		var eb []ast.Stmt
+		hasElse := x.Else != nil
+		if hasElse {
+			switch e := x.Else.(type) {
+			case *ast.BlockStmt:
+				eb = e.List
+			default:
+				eb = []ast.Stmt{e}
+			}
+		}
+		if x.Init != nil {
+			// info := isSubGraphInterrupt(t.err); info != nil
+			as, ok := x.Init.(*ast.AssignStmt)
+			if !ok || as.Tok != token.DEFINE || len(as.Lhs) != 1 || len(as.Rhs) != 1 {
+				return "", c.err("if with initialiser")
+			}
+			call, ok := as.Rhs[0].(*ast.CallExpr)
+			v := c05Ident(as.Lhs[0])
+			be, ok2 := x.Cond.(*ast.BinaryExpr)
+			if !ok || !ok2 || c05Ident(call.Fun) != "isSubGraphInterrupt" || len(call.Args) != 1 || !c.taskField(call.Args[0], "err") || v == "" ||
+				be.Op != token.NEQ || c05Ident(be.X) != v || !c05IsNil(be.Y) {
+				return "", c.err("if with an initialiser that is not `info := isSubGraphInterrupt(t.err); info != nil`")
+			}
+			c.bound[v] = "info"
+			th, err := c.exec(append(append([]ast.Stmt{}, x.Body.List...), rest...), effs, ind+"  ")
+			delete(c.bound, v)
+			if err != nil {
+				return "", err
+			}
+			el, err := c.exec(append(append([]ast.Stmt{}, eb...), rest...), effs, ind+"  ")
+			if err != nil {
+				return "", err
+			}
+			return fmt.Sprintf("match t_sub x with\n%s| Some info => %s\n%s| None => %s\n%send", ind, th, ind, el, ind), nil
+		}
+		// sub != nil / sub == nil, sub holding isSubGraphInterrupt(t.err)
+		if be, ok := x.Cond.(*ast.BinaryExpr); ok && (be.Op == token.NEQ || be.Op == token.EQL) && c05IsNil(be.Y) && c.subVars[c05Ident(be.X)] {
+			v := c05Ident(be.X)
+			some, none := x.Body.List, eb
+			if be.Op == token.EQL {
+				some, none = eb, x.Body.List
+			}
+			c.bound[v] = "info"
+			th, err := c.exec(append(append([]ast.Stmt{}, some...), rest...), effs, ind+"  ")
+			delete(c.bound, v)
+			if err != nil {
+				return "", err
+			}
+			el, err := c.exec(append(append([]ast.Stmt{}, none...), rest...), effs, ind+"  ")
+			if err != nil {
+				return "", err
+			}
+			return fmt.Sprintf("match t_sub x with\n%s| Some info => %s\n%s| None => %s\n%send", ind, th, ind, el, ind), nil
+		}
+		cnd, err := c.cond(x.Cond)
+		if err != nil {
+			return "", err
+		}
+		th, err := c.exec(append(append([]ast.Stmt{}, x.Body.List...), rest...), effs, ind+"  ")
+		if err != nil {
+			return "", err
+		}
+		el, err := c.exec(append(append([]ast.Stmt{}, eb...), rest...), effs, ind+"  ")
+		if err != nil {
+			return "", err
+		}
+		return fmt.Sprintf("if %s then %s\n%selse %s", cnd, th, ind, el), nil
+	}
+	return "", c.err("statement not recognised")
+}
+
+func c05aResolveTasks(f *ast.File) (string, error) {
+	where := "(*runner).resolveInterruptCompletedTasks"
+	fn := c05MethodOf(f, "runner", "resolveInterruptCompletedTasks")
+	if fn == nil || fn.Body == nil {
+		return "", c05Err(where, "not found")
+	}
+	c := &c05aResolve{where: where, recv: c05Recv(fn), effOf: map[string]string{}, bound: map[string]string{}, subVars: map[string]bool{}, file: f}
+	var names, typs []string
+	for _, fl := range fn.Type.Params.List {
+		for _, n := range fl.Names {
+			names = append(names, n.Name)
+			typs = append(typs, c05aSrc(fl.Type))
+		}
+	}
+	if len(names) != 4 || typs[0] != "map[string]*subGraphInterruptError" || typs[1] != "*[]string" || typs[2] != "*[]string" || typs[3] != "[]*task" || c.recv == "" {
+		return "", c.err("parameters %v", typs)
+	}
+	c.submap, c.tasks = names[0], names[3]
+	c.effOf[names[0]], c.effOf[names[1]], c.effOf[names[2]] = "ESub", "ERerun", "EAfter"
+	l := fn.Body.List
+	if len(l) != 2 {
+		return "", c.err("body of %d statements", len(l))
+	}
+	if ret, ok := l[1].(*ast.ReturnStmt); !ok || len(ret.Results) > 1 || (len(ret.Results) == 1 && !c05IsNil(ret.Results[0])) {
+		return "", c.err("last statement is not `return nil`")
+	}
+	var body []ast.Stmt
+	switch x := l[0].(type) {
+	case *ast.ForStmt:
+		// for i := 0; i < len(tasks); i++
+		as, ok := x.Init.(*ast.AssignStmt)
+		if !ok || as.Tok != token.DEFINE || len(as.Lhs) != 1 || c05aSrc(as.Rhs[0]) != "0" {
+			return "", c.err("loop header")
+		}
+		c.idx = c05Ident(as.Lhs[0])
+		if c05Squash(c05aSrc(x.Cond)) != c.idx+"<len("+c.tasks+")" {
+			return "", c.err("loop condition %s", c05aSrc(x.Cond))
+		}
+		if inc, ok := x.Post.(*ast.IncDecStmt); !ok || inc.Tok != token.INC || c05Ident(inc.X) != c.idx {
+			return "", c.err("loop increment")
+		}
+		body = x.Body.List
+	case *ast.RangeStmt:
+		if c05Ident(x.X) != c.tasks || x.Tok != token.DEFINE {
+			return "", c.err("loop over %s", c05aSrc(x.X))
+		}
+		if x.Value != nil {
+			c.tv = c05Ident(x.Value)
+			if x.Key != nil && c05Ident(x.Key) != "_" {
+				return "", c.err("loop variables")
+			}
+		} else {
+			c.idx = c05Ident(x.Key)
+		}
+		body = x.Body.List
+	default:
+		return "", c.err("first statement is not the loop over the tasks")
+	}
+	tree, err := c.exec(body, nil, "  ")
+	if err != nil {
+		return "", err
+	}
+	return "Definition resolve_task (V SCP SINFO : Type) (after_cfg : list N) (t : N * @texec V SCP SINFO) : rstep SCP SINFO :=\n" +
+		"  let k := fst t in let x := snd t in\n  " + tree + ".\n", nil
+}
+
 // ---------------------------------------------------------------- the extractor
 
 func c05ExtractCpAsm(repo string) (string, string, error) {
@@ -1255,6 +1687,10 @@ func c05ExtractCpAsm(repo string) (string, string, error) {
 	if err != nil {
 		return "", "", err
 	}
+	rdefTask, err := c05aResolveTasks(f)
+	if err != nil {
+		return "", "", err
+	}
 	// deterministic: nothing here depends on map iteration order (vars are looked up, never ranged for output)
 	_ = sort.Strings
 	var b strings.Builder
@@ -1263,7 +1699,7 @@ func c05ExtractCpAsm(repo string) (string, string, error) {
 		"From Eino Require Import Base.Util Model.RunLoop Model.CheckpointAsmLib.\n" +
 		"Local Open Scope N_scope.\n\n" +
 		"Definition tie_available : bool := true.\n\n")
-	b.WriteString(pdef + "\n" + rdef + "\n")
+	b.WriteString(pdef + "\n" + rdef + "\n" + rdefTask + "\n")
 	b.WriteString("Definition interrupt_dest (isSubGraph hasID : bool) : adest :=\n  " + ph.dest + ".\n\n")
 	b.WriteString("Local Open Scope string_scope.\n")
 	b.WriteString("Definition assembly_tail : list string := " + c05StrList(ph.tail) + ".\n\n")
